@@ -48,11 +48,11 @@ THOROUGH_GROUPS = {
 # Verus unit -> bounded groups that can produce a failing input for it
 CEX_GROUPS = {
     "process_index": ["arith"], "process_slice": ["arith"], "validate_range": ["text_arith"],
-    "eq": ["cmp_struct"], "lt": ["cmp_struct"], "count": ["e2e_fn"], "value": ["e2e_fn"], "length": ["e2e_fn"], "TestFunction::apply": ["e2e_fn"],
+    "eq": ["cmp_struct", "e2e_cmp"], "lt": ["cmp_struct", "e2e_cmp"], "count": ["e2e_fn"], "value": ["e2e_fn"], "length": ["e2e_fn"], "TestFunction::apply": ["e2e_fn"],
     "Filter::select_children": ["e2e_filter"], "Filter::process_elem": ["e2e_filter"], "FilterAtom::process": ["e2e_filter"], "Filter::filter_item": ["e2e_filter"],
     "Filter::process": ["e2e_filter"], "Filter::process_selector": ["e2e_filter"], "invert_bool": ["e2e_filter"], "Test::process": ["e2e_filter"],
     "process_key": ["name_lookup", "e2e"], "process_descendant": ["descendant", "e2e"], "process_selectors": ["selectors", "e2e"], "process_wildcard": ["e2e"],
-    "eq_json": ["cmp_struct", "e2e_cmp"], "eq_arrays": ["cmp_struct"], "eq_ref_to_array": ["cmp_struct"], "Comparison::process": ["e2e_cmp"], "Comparable::process": ["e2e_cmp"],
+    "eq_json": ["cmp_struct", "e2e_cmp"], "eq_arrays": ["cmp_struct", "e2e_cmp"], "eq_ref_to_array": ["cmp_struct", "e2e_cmp"], "Comparison::process": ["e2e_cmp"], "Comparable::process": ["e2e_cmp"],
     "Literal::process": ["e2e_cmp"], "SingularQuery::process": ["e2e_cmp"], "SingularQuerySegment::process": ["e2e_cmp"], "Vec<SingularQuerySegment>::process": ["e2e_cmp"],
     "FnArg::process": ["e2e_fn"], "TestFunction::process": ["e2e_fn"], "Value::extension_custom": ["ext_direct"], "custom": ["e2e_ext"], "regex": ["regex", "e2e_fn"], "TestFunction::try_new": ["text_ext", "text_filter"],
     "js_path": ["text_plain", "text_union"], "js_path_vals": ["text_plain", "text_union"], "js_path_path": ["text_plain", "text_union"], "js_path_process": ["e2e"],
